@@ -17,6 +17,16 @@ def V(id, prop, expect, *edits, tier="quick"):
     })
 
 
+JAXC = "piquasso/_simulators/connectors/jax_/connector.py"
+V("c09e-jax-left-polar-by-plain-transpose", "C09", {"rule": "C09e", "contains": "JaxConnector.polar|side=left"},
+  (JAXC, "        return self._scipy.linalg.polar(a, side, method=\"svd\")",
+   "        if side == \"left\":\n            unitary, posdef = self._scipy.linalg.polar(a.T, side=\"right\")\n            return unitary.T, posdef\n        return self._scipy.linalg.polar(a, side=\"right\")"))
+V("c09e-jax-left-polar-by-adjoint", "C09", "silent",
+  (JAXC, "        return self._scipy.linalg.polar(a, side, method=\"svd\")",
+   "        if side == \"left\":\n            unitary, posdef = self._scipy.linalg.polar(a.conj().T, side=\"right\")\n            return unitary.conj().T, posdef\n        return self._scipy.linalg.polar(a, side=\"right\")"))
+V("c09e-jax-polar-sides-swapped", "C09", {"rule": "C09e", "contains": "JaxConnector.polar"},
+  (JAXC, "        return self._scipy.linalg.polar(a, side, method=\"svd\")",
+   "        return self._scipy.linalg.polar(a, \"left\" if side == \"right\" else \"right\", method=\"svd\")"))
 # ------------------------------------------------------------------------------------------- C20
 V("c20-sub-add", "C20", {"rule": "C20c", "contains": "Sub"}, (EXPR, "ast.Sub: op.sub", "ast.Sub: op.add"))
 V("c20-lt-le", "C20", {"rule": "C20c", "contains": "Lt"}, (EXPR, "ast.Lt: op.lt", "ast.Lt: op.le"))
